@@ -89,6 +89,8 @@ Step(ww, r) ==
     [] r.e = "event"      -> IF r.t = "chg" THEN WEvent(ww, r.name) ELSE WClosingEvent(ww, r.kind)
     [] r.e = "events_end" -> WEventsEnd(ww)
     [] r.e = "timeout"    -> WTimeout(ww)
+    [] r.e = "wstall"     -> WStall(ww, TRUE)
+    [] r.e = "wresume"    -> WStall(ww, FALSE)
     [] r.e = "quiescent"  -> Chk(WQuiescent(ww), ww.desync \/ ww.nconf = Len(ww.reps), "HARNESS", "server model emitted a reply the simulator did not")
     [] r.e = "fault"      -> WFault(ww, r.kind, r.lost)
     [] r.e = "connected"  -> LET g == GreetingRef(GreetSeen(ww)) IN WConnected(ww, r.ok, r.err, r.version, ww.nhCfg, g.ok, g.version, g.cut)
